@@ -540,6 +540,14 @@ void enumerate_faults(case_t& k, const std::string& object, const stream_t& s, c
                     const bool collision =
                         loc.m_hash_known && stored == ref_hash(wb + loc.m_payload, loc.m_payload_size / loc.m_ssize,
                                                                loc.m_ssize, loc.m_sign_extend);
+                    c.count(collision ? "payload_corruption_hash_collision" : "payload_corruption_accepted");
+                    const auto key =
+                        std::string("C15|payload-corruption|") + (collision ? "hash-collision|" : "accepted|") + object;
+                    if (k.m_keys.count(key) != 0U)
+                    {
+                        c.count("violations_seen");
+                        continue; // already reported for this case (wb[i] is restored after the loop)
+                    }
                     vf::json_t j;
                     j.kv("object", object).kv("stream_offset", static_cast<unsigned long long>(i));
                     j.kv("payload_offset", static_cast<unsigned long long>(i - loc.m_payload));
@@ -549,10 +557,7 @@ void enumerate_faults(case_t& k, const std::string& object, const stream_t& s, c
                     j.kv("stored_hash_matches_altered_content", collision);
                     j.kv("header_hex", hex(wb + loc.m_begin, loc.m_payload - loc.m_begin, 64));
                     j.kv("altered_payload_hex", hex(wb + loc.m_payload, loc.m_payload_size, 256));
-                    c.count(collision ? "payload_corruption_hash_collision" : "payload_corruption_accepted");
-                    k.violation(std::string("C15|payload-corruption|") + (collision ? "hash-collision|" : "accepted|") +
-                                    object,
-                                j);
+                    k.violation(key, j);
                 }
             }
             wb[i] = old;
